@@ -124,8 +124,9 @@ type internalStruct struct {
 	// map key type
 	MapKeyPointerNum uint32 `json:",omitempty"`
 	MapKeyType       string `json:",omitempty"`
-	// MapKeyInternal: the key type is an interface, the keys of MapValues are serialized
-	// internalStructs (which keep the dynamic type of the key) instead of plain JSON
+	// MapKeyInternal: the key type is an interface or a struct, the keys of MapValues are serialized
+	// internalStructs (which keep the dynamic type of the key and every exported field of a struct,
+	// whatever its json tags say) instead of plain JSON
 	MapKeyInternal bool `json:",omitempty"`
 	// map value type
 	MapValuePointerNum uint32 `json:",omitempty"`
@@ -238,7 +239,8 @@ func internalMarshal(v any) (*internalStruct, error) {
 		}
 
 		ret.MapValues = make(map[string]*internalStruct)
-		ret.MapKeyInternal = rkt.Kind() == reflect.Interface && ret.MapKeyPointerNum == 0
+		// plain JSON would follow the json tags of a struct key (`json:"-"`, two fields with one name)
+		ret.MapKeyInternal = (rkt.Kind() == reflect.Interface || rkt.Kind() == reflect.Struct) && ret.MapKeyPointerNum == 0
 
 		iter := rv.MapRange()
 		for iter.Next() {
